@@ -242,3 +242,98 @@ def _run(f, s, st):
         _run(f, s["c"][0], st)
     else:
         raise Unknown("statement kind %s" % k)
+
+
+class _Stop(Exception):
+    pass
+
+
+def trace(f, body, env, max_items=200):
+    """Execute a loop-free statement tree under env (as run_body) and return the list of 'effect' statements met, in order,
+    as (kind, node): kind in call / assign / break / return / throw / other.  Conditions are evaluated with ev(); integer
+    locals declared on the way join the environment.  Stops at the first break / return / throw."""
+    out = []
+    st = dict(env)
+
+    def go(s):
+        if s is None:
+            return
+        if len(out) > max_items:
+            raise Unknown("too many statements")
+        k = s["k"]
+        if k == "CompoundStmt":
+            for x in s.get("c", []):
+                go(x)
+        elif k == "DeclStmt":
+            for d in s.get("c", []):
+                if d["k"] == "VarDecl" and d.get("c"):
+                    t = facts.tyi(f, d.get("t")) or {}
+                    if t.get("k") in ("int", "bool", "enum"):
+                        try:
+                            st[d["var"]] = wrap(ev(f, d["c"][0], st), t)
+                        except Unknown:
+                            out.append(("other", d))
+                    else:
+                        out.append(("other", d))
+        elif k == "IfStmt":
+            real = [x for x in s["c"] if x is not None]
+            if ev(f, real[0], st):
+                go(real[1])
+            elif len(real) > 2:
+                go(real[2])
+        elif k == "SwitchStmt":
+            real = [x for x in s["c"] if x is not None]
+            v = ev(f, real[0], st)
+            items = _flat_cases(real[-1])
+            start = None
+            for i, it in enumerate(items):
+                if it[0] == "case" and it[1] is not None and int(it[1]) == v:
+                    start = i
+                    break
+            if start is None:
+                for i, it in enumerate(items):
+                    if it[0] == "default":
+                        start = i
+                        break
+            if start is not None:
+                try:
+                    for it in items[start:]:
+                        if it[0] == "stmt":
+                            if it[1]["k"] == "BreakStmt":
+                                raise _Break()
+                            go(it[1])
+                except _Break:
+                    pass
+        elif k == "BreakStmt":
+            out.append(("break", s))
+            raise _Stop()
+        elif k == "ReturnStmt":
+            out.append(("return", s))
+            raise _Stop()
+        elif k == "CXXThrowExpr" or (k == "ExprWithCleanups" and s.get("c") and s["c"][0]["k"] == "CXXThrowExpr"):
+            out.append(("throw", s))
+            raise _Stop()
+        elif k in ("CallExpr", "CXXMemberCallExpr", "CXXOperatorCallExpr", "ExprWithCleanups"):
+            out.append(("call", s))
+        elif k in ("BinaryOperator", "CompoundAssignOperator", "UnaryOperator"):
+            lhs = strip(s["c"][0]) if s.get("c") else None
+            if k == "BinaryOperator" and s.get("op") == "=" and lhs is not None and lhs["k"] == "DeclRefExpr" and lhs.get("var"):
+                try:
+                    st[lhs["var"]] = wrap(ev(f, s["c"][1], st), facts.ty(f, lhs))
+                except Unknown:
+                    pass
+            elif k == "CompoundAssignOperator" and lhs is not None and lhs["k"] == "DeclRefExpr" and lhs.get("var") in st:
+                try:
+                    b = ev(f, s["c"][1], st)
+                    a = st[lhs["var"]]
+                    st[lhs["var"]] = wrap({"+=": a + b, "-=": a - b}.get(s.get("op"), a), facts.ty(f, lhs))
+                except Unknown:
+                    pass
+            out.append(("assign", s))
+        else:
+            out.append(("other", s))
+    try:
+        go(body)
+    except _Stop:
+        pass
+    return out
